@@ -50,10 +50,13 @@ THEOREMS = [
 
 REQ = "From Verif Require Import Model.C04_TimeArray."
 
-QUIRK_IDS = {"side": "c04_side_channel", "cache": "c04_jd_keyed_cache", "rebuild": "c04_gpsws_scalar_rebuild"}
+# "cacheshape": memoization keyed by value *and shape* (after the repair of __eq__/__hash__): equal arrays of the same shape
+# still share the to_scale result object, which is observable only through the hand-over slot -> class of c04_side_channel
+QUIRK_IDS = {"side": "c04_side_channel", "cache": "c04_jd_keyed_cache", "rebuild": "c04_gpsws_scalar_rebuild",
+             "cacheshape": "c04_side_channel"}
 # Model/C04_TimeArray.v `variants` (verdict v >= 2 -> VARIANTS[v - 1])
-VARIANTS = [(), ("side",), ("cache",), ("rebuild",), ("side", "cache"), ("side", "rebuild"), ("cache", "rebuild"),
-            ("side", "cache", "rebuild")]
+VARIANTS = [(), ("side",), ("cache",), ("rebuild",), ("side", "cacheshape"), ("side", "cache"), ("side", "rebuild"),
+            ("cache", "rebuild"), ("side", "cacheshape", "rebuild"), ("side", "cache", "rebuild")]
 WHAT = {
     "c04_side_channel": "TimeBase.__getitem__ leaves jd[item] in _jd1_sliced/_jd2_sliced on the parent; a later view()/tuple "
                         "index of that parent takes the stale slice: values and jd1/jd2 of the result are not aligned",
